@@ -116,3 +116,52 @@ func HarnessC06Inject() {
 		vAssert(c.cancel == nil, "c06:receiver-not-started-before-establishment")
 	}
 }
+
+// HarnessC06AfterEnd: once the server side ended the session (finish or fail, whether or not the terminal
+// envelope could be written), and once a client saw the server end it, no data envelope is written any more.
+func HarnessC06AfterEnd() {
+	ctx, cancel := context.WithTimeout(context.Background(), 200*time.Millisecond)
+	defer cancel()
+	var c *channel
+	var t *vhTransport
+	switch vhChoice("end", 4) {
+	case 0, 1:
+		t = &vhTransport{depth: 0, enc: SessionEncryptionNone, comp: SessionCompressionNone, sendFails: true}
+		sc := NewServerChannel(t, 1, Node{Identity{"postmaster", "srv"}, "s1"}, vhSID)
+		sc.state = SessionStateEstablished
+		c = sc.channel
+		if vParam("end", 0) == 0 {
+			_ = sc.FinishSession(ctx)
+		} else {
+			_ = sc.FailSession(ctx, &Reason{Code: 1, Description: "x"})
+		}
+	default:
+		// a client whose server ends the session while the application is not finishing
+		terminal := SessionStateFinished
+		if vParam("end", 2) == 3 {
+			terminal = SessionStateFailed
+		}
+		t = &vhTransport{depth: 1, enc: SessionEncryptionNone, comp: SessionCompressionNone}
+		t.rx = func(*vhTransport) (envelope, error) {
+			return &Session{Envelope: Envelope{ID: vhSID}, State: terminal}, nil
+		}
+		cc := NewClientChannel(t, vParam("buf", 0))
+		cc.sessionID = vhSID
+		cc.setState(SessionStateEstablished)
+		c = cc.channel
+		vQuiesce()
+	}
+	vReach("c06:session-ended")
+	before := len(t.sent)
+	for k := 0; k < 4; k++ {
+		err := vhSendKind(c, ctx, vhEnvelopeOfKind(k, "late"))
+		vAssert(err != nil, "c06:send-after-the-end-is-refused")
+	}
+	data := 0
+	for i := before; i < len(t.sent); i++ {
+		if _, isSes := t.sent[i].(*Session); !isSes {
+			data++
+		}
+	}
+	vAssert(data == 0, "c06:no-data-envelope-written-after-the-end")
+}
